@@ -91,6 +91,9 @@ def main():
         fmask = [rnd.random() < 0.2 for _ in range(size)] if rnd.random() < 0.5 else [False] * size
         if flavour == "positive":
             fmask = [m and v >= 0 for m, v in zip(fmask, vals)]     # keep the negative cells visible
+        elif rnd.random() < 0.12:
+            fmask = [True] * size                                   # a layer without a single value
+            dist["all_missing_files"] = dist.get("all_missing_files", 0) + 1
         with netCDF4.Dataset(fname, "w") as ds:
             for dname, ln in zip(dims, shape):
                 ds.createDimension(dname, ln)
@@ -108,7 +111,7 @@ def main():
         kind = "KFloat64" if stored == "f8" else ("KInt" if stored.startswith("i") else "KFloatOther")
         var_term = "(Some {| v_kind := %s; v_shape := %s; v_cells := %s |})" % (kind, clist([cnat(x) for x in shape]), c_cells(filevar))
         # ---- reads under parameter combinations ----
-        for _ in range(3):
+        for ri in range(3):
             dtype = rnd.choice([None, "Float", "Integer", "Positive Float", "Positive Integer", "Fuzzy"])
             if flavour == "positive" and rnd.random() < 0.75:
                 dtype = rnd.choice(["Positive Integer", "Positive Integer", "Positive Float"])
@@ -116,6 +119,8 @@ def main():
                 dtype = "Fuzzy"
             missing = rnd.choice([None, None, -9999, -9999.0, 0, 2.5, 1.5])
             varname = "elev" if rnd.random() < 0.93 else "nosuch"
+            if all(fmask) and ri == 0:
+                dtype, varname = "Fuzzy", "elev"       # a layer without values has no value outside [-1, 1]
             o = run_read(wd, fname, varname, dtype, missing)
             evaluations += 1
             dist["reads"] += 1
@@ -180,15 +185,23 @@ def main():
         # ---- write a set of results together, inspect, read back ----
         if rank >= 1:
             k = rnd.randint(1, 3)
-            arrays, prods = [], []
+            arrays, prods, fuzzy = [], [], []
             for j in range(k):
                 dt = rnd.choice([numpy.float64, numpy.float64, numpy.int64, numpy.float32])
-                data = numpy.array([rnd.randint(-9, 9) + (rnd.choice([0, 0.5, 0.25]) if dt != numpy.int64 else 0) for _ in range(size)], dtype=dt).reshape(shape)
+                fz = dt == numpy.float64 and rnd.random() < 0.3           # a fuzzy result: read back as DataType Fuzzy
+                if fz:
+                    data = numpy.array([rnd.choice([-1.0, -0.75, -0.5, 0.0, 0.25, 0.5, 1.0]) for _ in range(size)]).reshape(shape)
+                else:
+                    data = numpy.array([rnd.randint(-9, 9) + (rnd.choice([0, 0.5, 0.25]) if dt != numpy.int64 else 0) for _ in range(size)], dtype=dt).reshape(shape)
                 mk = rnd.random()
                 mask = numpy.array([rnd.random() < 0.25 for _ in range(size)]).reshape(shape) if mk < 0.6 else numpy.zeros(shape, dtype=bool)
+                if mk < 0.07:
+                    mask = numpy.ones(shape, dtype=bool)                   # a result without a single value
+                    dist["all_missing_results"] = dist.get("all_missing_results", 0) + 1
                 a = numpy.ma.array(data, mask=mask) if mk < 0.85 else numpy.ma.array(data)
                 arrays.append(a)
-                prods.append(cc.producer("res%d" % j, a, False))
+                fuzzy.append(fz)
+                prods.append(cc.producer("res%d" % j, a, fz))
             snaps = [(numpy.ma.getdata(a).copy(), numpy.ma.getmaskarray(a).copy()) for a in arrays]
             outp = os.path.join(wd, "out%d.nc" % fi)
             cmd = ncio.EEMSWrite("w", [Argument("OutFileName", outp, 1), Argument("OutFieldNames", prods, 1), Argument("DimensionFileName", fname, 1),
@@ -231,7 +244,7 @@ def main():
             # read back through EEMSRead
             for j, a in enumerate(arrays):
                 isint = numpy.issubdtype(a.dtype, numpy.integer)
-                o = run_read(wd, outp, "res%d" % j, "Integer" if isint else None, None)
+                o = run_read(wd, outp, "res%d" % j, "Integer" if isint else ("Fuzzy" if fuzzy[j] else None), None)
                 dist["roundtrips"] += 1
                 evaluations += 1
                 if o[0] != "ok":
